@@ -10,7 +10,9 @@ use std::ops::ControlFlow;
 use std::panic::{catch_unwind, AssertUnwindSafe};
 
 pub const ENCODINGS: [&str; 6] = ["utf8", "utf8-bom", "utf16le", "utf16le-bom", "utf16be", "utf16be-bom"];
-pub const TRAPS: [&str; 5] = ["strict", "ignore", "replace", "call-continue", "call-break"];
+pub const TRAPS: [&str; 6] = ["strict", "ignore", "replace", "call-continue", "call-break", "call-validate"];
+/// set by the validating callback when it is handed arguments that cannot be right
+static BAD_CALLBACK_ARGS: std::sync::atomic::AtomicBool = std::sync::atomic::AtomicBool::new(false);
 pub const BYTES: [u8; 10] = [0x00, 0x0A, 0x20, 0x2D, 0x41, 0x80, 0xC3, 0xE4, 0xFE, 0xFF];
 const TEXT_SYMBOLS: &str = "a: \n-é中😀";
 
@@ -20,13 +22,22 @@ fn cb_continue(_: u8, _: u8, _: &[u8], _: &mut String) -> ControlFlow<std::borro
 fn cb_break(_: u8, _: u8, _: &[u8], _: &mut String) -> ControlFlow<std::borrow::Cow<'static, str>> {
     ControlFlow::Break("stop".into())
 }
+/// Continues like `cb_continue`, but looks at what it is told: the malformed sequence has at least one
+/// byte and lies within the input slice it is shown.
+fn cb_validate(malformation_length: u8, _bytes_read_after_malformation: u8, input_at_malformation: &[u8], _: &mut String) -> ControlFlow<std::borrow::Cow<'static, str>> {
+    if malformation_length == 0 || malformation_length as usize > input_at_malformation.len() {
+        BAD_CALLBACK_ARGS.store(true, std::sync::atomic::Ordering::Relaxed);
+    }
+    ControlFlow::Continue(())
+}
 fn trap_of(i: usize) -> YAMLDecodingTrap {
     match i {
         0 => YAMLDecodingTrap::Strict,
         1 => YAMLDecodingTrap::Ignore,
         2 => YAMLDecodingTrap::Replace,
         3 => YAMLDecodingTrap::Call(cb_continue),
-        _ => YAMLDecodingTrap::Call(cb_break),
+        4 => YAMLDecodingTrap::Call(cb_break),
+        _ => YAMLDecodingTrap::Call(cb_validate),
     }
 }
 
@@ -192,6 +203,9 @@ fn eval_bytes(bytes: &[u8], trap: usize, text: Option<&str>, what: &str, acc: &m
         }
         Ok(g) => g,
     };
+    if BAD_CALLBACK_ARGS.swap(false, std::sync::atomic::Ordering::Relaxed) {
+        acc.violation(Violation { key: format!("callback-arguments scope={what}"), expected: "a malformed sequence of at least one byte inside the slice shown to the callback".into(), observed: "malformation_length is 0 or longer than input_at_malformation".into(), case: bytes_case(bytes, trap, text), size: bytes.len() });
+    }
     // the same bytes through readers that return short reads must give the same result
     if bytes.len() > 1 && (what == "texts" || what == "long" || bytes.len() <= 4) {
         for chunk in [1usize, 3] {
@@ -229,7 +243,7 @@ fn eval_bytes(bytes: &[u8], trap: usize, text: Option<&str>, what: &str, acc: &m
             if matches!(got, Dec::Decode(_)) {
                 acc.violation(Violation { key: format!("lenient-trap-fails scope={what} trap={}", TRAPS[trap]), expected: "decoding continues".into(), observed: format!("{got:?}"), case: bytes_case(bytes, trap, text), size: bytes.len() });
             }
-            if trap == 3 {
+            if trap == 3 || trap == 5 {
                 // a callback that continues behaves like Ignore
                 if let Ok(ig) = decode(bytes, 1) {
                     if ig != got {
@@ -419,7 +433,7 @@ fn scenario_case(grid: &str, tier: Tier, i: u64) -> Value {
 
 pub fn check(tier: Tier) -> i32 {
     let mut rep = Report::new("C18", tier, "exploration");
-    rep.rule = "process-isolated grids with a per-scenario watchdog (10 s, confirmed by a 30 s single-scenario re-run): (i) every text up to length L over {a : space LF - é 中 😀} that starts with an ASCII character, plus run-length texts at the growth-step boundaries (3..4096 characters), in 6 encodings (UTF-8/16LE/16BE, with and without BOM) x 5 traps: decode(bytes) must equal load_from_str(text); (i') the same for every text U+FEFF x {1,2} + t (t ASCII-led or empty, one symbol shorter): with an encoding BOM in front the general oracle applies, without one decode(bytes) must still equal load_from_str(text) (known finding F-C18-02: the character-level parser keeps a leading U+FEFF as content while the decoder takes it for the encoding's mark); (ii) every byte string up to length B over {00 0A 20 2D 41 80 C3 E4 FE FF} x 5 traps, (iii) every truncation and every single-byte substitution of the encodings of 20 texts: the call returns (no panic, no hang); a reference codec (documented detection rule + std's UTF-8/UTF-16 validation) says whether the bytes are well-formed: well-formed => same documents as loading the decoded text, malformed + strict (or breaking callback) => Decode error, malformed + lenient trap => no Decode error, continuing callback == ignore. Non-trivial/distinct: distinct (scope, trap, well-formedness, result kind, length).".into();
+    rep.rule = "process-isolated grids with a per-scenario watchdog (10 s, confirmed by a 30 s single-scenario re-run): (i) every text up to length L over {a : space LF - é 中 😀} that starts with an ASCII character, plus run-length texts at the growth-step boundaries (3..4096 characters), in 6 encodings (UTF-8/16LE/16BE, with and without BOM) x 6 traps: decode(bytes) must equal load_from_str(text); (i') the same for every text U+FEFF x {1,2} + t (t ASCII-led or empty, one symbol shorter): with an encoding BOM in front the general oracle applies, without one decode(bytes) must still equal load_from_str(text) (known finding F-C18-02: the character-level parser keeps a leading U+FEFF as content while the decoder takes it for the encoding's mark); (ii) every byte string up to length B over {00 0A 20 2D 41 80 C3 E4 FE FF} x 6 traps, (iii) every truncation and every single-byte substitution of the encodings of 20 texts: the call returns (no panic, no hang); a reference codec (documented detection rule + std's UTF-8/UTF-16 validation) says whether the bytes are well-formed: well-formed => same documents as loading the decoded text, malformed + strict (or breaking callback) => Decode error, malformed + lenient trap => no Decode error, continuing callback == ignore. Non-trivial/distinct: distinct (scope, trap, well-formedness, result kind, length).".into();
     rep.assumptions = vec!["std's str::from_utf8 and char::decode_utf16 define well-formedness".into(), "texts contain no U+0000 (the detection rule relies on NUL patterns)".into(), "Replace-mode output is not compared with a particular replacement policy".into()];
     rep.mandatory_scopes = 5;
     let deadline = std::time::Instant::now() + std::time::Duration::from_secs(wall_cap(tier));
